@@ -1,6 +1,7 @@
 """C13 — dependency listings are complete and ordered; `uses` is their inverse.
 
 Implementation: `Eups.getDependentProducts` (every declared product as root, topological x checkCycles),
+`Distrib._createDeps` (the installation order derived from the topological listing, every product as root),
 `Eups.uses` (every product, with and without version, and unresolvable names), on Eups instances configured
 the way `eups list --dependencies` / `eups uses` configure them; a sample of the same queries is also run
 through the real command line, one process per command.  `utils.topologicalSort` and
@@ -15,7 +16,8 @@ from . import common
 from . import lib_deps as L
 from .common import parallel_map
 
-RULE = ("cases = (declared graph, root, topological, checkCycles) listings, (declared graph, uses target with or "
+RULE = ("cases = (declared graph, root, topological, checkCycles) listings, (declared graph, root) installation orders "
+        "of Distrib._createDeps, (declared graph, uses target with or "
         "without version) queries, and integer graphs given to topologicalSort/stronglyConnectedComponents; graphs "
         "are generated from shapes (chain, diamond, shared sub-tree, random DAG, cyclic, name-cyclic across versions) "
         "with optional edges, explicit versions of declared and undeclared versions, two versions of one product, "
@@ -292,6 +294,41 @@ def oracle_listing(R, root, mode, out, stats=None):
                     return
 
 
+def oracle_build(R, root, out):
+    """The installation order: the root comes last, and no product comes before one of its dependencies from another
+    component (products in two versions: D31)."""
+    rootn = (root[0], root[1], True)
+    listed, expanded = R.closure(rootn)
+    if any(R.has_unsetup.get(u) for u in expanded):
+        return
+    nodes = listed | expanded
+    names = {}
+    for a in nodes:
+        names.setdefault(a[0], set()).add(a)
+    twover = any(len(s) > 1 for s in names.values())
+    required_unresolved = any(not t[2] and not o for u in expanded for t, _, o in R.succ.get(u, []))
+    if isinstance(out, str):
+        if out == "NotFound" and required_unresolved:
+            return
+        yield ("build_no_error", "D31" if (twover and out == "NotFound") else None, "_createDeps raised %s" % out)
+        return
+    if out[-1][:2] != [root[0], root[1]]:
+        yield ("build_root_last", None, "the product itself is not installed last")
+    pos = {}
+    for i, p in enumerate(out):
+        pos.setdefault((p[0], p[1], True), i)
+    reach = R.reach(nodes, expanded)
+    want = {(t[0], t[1]) for t in listed if t[2]} | {(root[0], root[1])}
+    if {(p[0], p[1]) for p in out} != want:
+        yield ("build_is_closure", "D31" if twover else None, "installs %s, closure %s" % (sorted({(p[0], p[1]) for p in out}), sorted(want)))
+        return
+    for u in expanded:
+        for t, _, _ in R.succ.get(u, []):
+            if t[2] and t in pos and u in pos and not (t in reach and u in reach.get(t, ())) and not pos[t] < pos[u]:
+                yield ("build_order", "D31" if twover else None, "%s is installed before its dependency %s" % (u, t))
+                return
+
+
 def oracle_users(R, graph, query, out, reach_cache):
     n, v = query
     if isinstance(out, str):
@@ -330,6 +367,21 @@ def _listing(root, mode):
     return L.canon_listing(e.getDependentProducts(plist[0], False, topological=mode[0], checkCycles=mode[1]))
 
 
+def _build(root):
+    """`Distrib._createDeps`: the installation order the distribution machinery derives from the topological listing"""
+    import io
+    from eups.distrib.Distrib import Distrib
+    ecmd = L.cli_eups("list", ["-D", "--topological"] + list(root))
+    e = ecmd.createEups(ecmd.opts, versionName=root[1], quiet=1)
+    m = Distrib(e, None, verbosity=0, log=io.StringIO())._createDeps(root[0], root[1])
+    return [[p.product, p.version, bool(p.isOpt)] for p in m.getProducts()]
+
+
+def build_err(ex):
+    c = L.err_class(ex)
+    return "Undetermined" if (c == "Other(EupsException)" and "Unable to determine dependencies" in str(ex)) else c
+
+
 def run_impl(job):
     """One forked child per graph: every listing and every uses query through the API, on Eups instances
     configured as the command line configures them."""
@@ -349,6 +401,12 @@ def run_impl(job):
                 except BaseException as ex:  # noqa
                     row.append(L.err_class(ex))
             lists.append(row)
+        builds = []
+        for r in roots:
+            try:
+                builds.append(L.quietly(_build, r))
+            except BaseException as ex:  # noqa
+                builds.append(build_err(ex))
         users, uses = None, None
         if queries:
             try:
@@ -365,7 +423,7 @@ def run_impl(job):
                         users.append(L.canon_users(L.quietly(e.uses, n, v, 9999, usesInfo=info)))
                     except BaseException as ex:  # noqa
                         users.append(L.err_class(ex))
-        return {"lists": lists, "uses": uses, "users": users}
+        return {"lists": lists, "builds": builds, "uses": uses, "users": users}
     finally:
         common.rmtree(root)
 
@@ -392,6 +450,13 @@ def run_cli_sample(job):
         else:
             val = res["error"] or "rc=%s" % res["rc"]
         printed = None
+        if kind == "uses" and not isinstance(val, str):
+            # what `eups uses --optional` printed after the header: product, version[, version needed][Optional]
+            printed = []
+            for line in res["stdout"].splitlines()[1:]:
+                parts = line.split()
+                if len(parts) >= 2:
+                    printed.append([parts[0], parts[1], line.rstrip().endswith("Optional")])
         if kind == "list" and not isinstance(val, str):
             # what `eups list -D` printed: lines "<indent><name>   <version>"
             printed = []
@@ -482,6 +547,16 @@ def evaluate(ctx, graphs, ncli=2, corpus=False):
                     ctx.disagree("listing", inp, out, mo)
                 for clause, fid, detail in oracle_listing(R, r, mode, out, ctx.hist if mi == 0 else None):
                     ctx.fail(clause, inp, out, mo, note=detail, finding=fid)
+        mb = [(b["list"] if b["out"] == "ok" else b["out"]) for b in ans["builds"]]
+        for ri, r in enumerate(roots):
+            out, mo = io_["builds"][ri], mb[ri]
+            inp = {"graph": g, "root": r, "build": True}
+            ctx.case(key=[g["products"], r, "build"], nontrivial=bool(R.succ.get((r[0], r[1], True))))
+            ctx.hist("build:%s" % (out if isinstance(out, str) else "ok"))
+            if out != mo:
+                ctx.disagree("build_order", inp, out, mo)
+            for clause, fid, detail in oracle_build(R, r, out):
+                ctx.fail(clause, inp, out, mo, note=detail, finding=fid)
         if queries:
             ctx.hist("uses:%s" % io_["uses"])
             if io_["uses"] != ans.get("uses"):
@@ -513,7 +588,12 @@ def evaluate(ctx, graphs, ncli=2, corpus=False):
         g, roots, queries = jobs[gi]
         out = res["val"]
         ctx.hist("cli:%s" % kind)
-        if res["printed"] is not None:
+        if res["printed"] is not None and kind == "uses":
+            want = [[u[0], u[1], u[3]] for u in out]
+            if res["printed"] != want:
+                ctx.fail("cli_prints_users", {"graph": g, "query": queries[a], "via": "command line"},
+                         res["printed"], want, note="eups uses printed something else than the users it computed")
+        elif res["printed"] is not None:
             want = expected_print(roots[a[0]], MODES[a[1]], out)
             if res["printed"] != want:
                 ctx.fail("cli_prints_listing", {"graph": g, "root": roots[a[0]], "mode": MODES[a[1]], "via": "command line"},
@@ -696,14 +776,22 @@ def replay(ctx, rp):
         kind = "list" if "root" in inp else "uses"
         res = in_child_cli((g, kind, (inp["root"], inp["mode"]) if kind == "list" else inp["query"]))
         out = res["val"]
-        if res["printed"] is not None and res["printed"] != expected_print(inp["root"], inp["mode"], out):
+        if res["printed"] is not None and kind == "uses":
+            if res["printed"] != [[u[0], u[1], u[3]] for u in out]:
+                cli_fails.append({"clause": "cli_prints_users", "class": None, "detail": "printed %s" % (res["printed"],)})
+        elif res["printed"] is not None and res["printed"] != expected_print(inp["root"], inp["mode"], out):
             cli_fails.append({"clause": "cli_prints_listing", "class": None,
                               "detail": "printed %s, listing %s" % (res["printed"], expected_print(inp["root"], inp["mode"], out))})
         io_ = {"lists": [[out if m == inp.get("mode") else None for m in MODES]], "uses": "ok", "users": [out]}
     else:
         io_ = in_child_job((g, roots, queries))
     ans = ctx.lean.ask(model_request(g, roots, queries))
-    if roots:
+    if inp.get("build"):
+        out = io_["builds"][0]
+        b = ans["builds"][0]
+        mo = b["list"] if b["out"] == "ok" else b["out"]
+        fails = [{"clause": c, "class": f, "detail": d} for c, f, d in oracle_build(R, inp["root"], out)]
+    elif roots:
         mi = MODES.index(inp["mode"])
         out, mo = io_["lists"][0][mi], model_lists(ans)[0][mi]
         fails = [{"clause": c, "class": f, "detail": d} for c, f, d in oracle_listing(R, inp["root"], inp["mode"], out)]
